@@ -258,6 +258,7 @@ def c16_rf16(run):
     run.min_instances('RF16b', 4)
     rf_proto.rf16j(run)
     rf_proto.rf16k(run)
+    rf_iface.rf42b(run)
     rf_dispatch.rf7g(run)
     run.min_instances('RF7g', 60)
 
